@@ -112,20 +112,22 @@ Proof. intros E Hcut pkt st HP. unfold acc_add. rewrite HP. cbn [a_buf].
   - rewrite (app_eq_over _ _ _ _ E Ge) at 1. rewrite unit_stuffed, (done_complete _ (wf_with _)). cbn [bind]. reflexivity.
 Qed.
 
+(* tl: whatever follows in the stream is never looked at *)
+Variable tl : list bytes.
 Lemma read_pkts_ok : forall rest first a A,
   Forall (wf_item pid) rest ->
-  ((first = true /\ a = new_acc /\ A = []) \/ (first = false /\ a = {| a_buf := A; a_state := 1 |})) ->
+  ((first = true /\ a_state a <> 2 /\ A = []) \/ (first = false /\ a = {| a_buf := A; a_state := 1 |})) ->
   (exists n, A ++ concat (chunks rest) = U ++ repeatN 255 n) ->
   len A < len U ->
   (forall j, let k := len A + len (concat (chunks (firstn j rest))) in k < len U -> ~ inner_end c k) ->
-  read_pkts (ser_items pid first rest) pid a = Ok (sec_result (sec c)).
+  read_pkts (ser_items pid first rest ++ tl) pid a = Ok (sec_result (sec c)).
 Proof.
   induction rest as [|it rest IH]; intros first a A WI ST (n & EQ) LA CUT.
   - cbn [chunks concat] in EQ. rewrite app_nil_r in EQ. exfalso.
     assert (len A = len (U ++ repeatN 255 n)) by (rewrite EQ; reflexivity). rewrite len_app in *. lia.
   - inversion WI as [|? ? WI1 WI']; subst. destruct it as [p|m af ch].
     + (* a packet of another PID is skipped *)
-      destruct WI1 as (Lp & Bp & Np). cbn [ser_items read_pkts].
+      destruct WI1 as (Lp & Bp & Np). cbn [ser_items app read_pkts].
       assert (Hq: pkt_pid p = Ok (pid_of p)).
       { unfold pkt_pid, pid_of. rewrite (idx_nthN p 1), (idx_nthN p 2) by lia. cbn [bind]. f_equal.
         rewrite land31. apply lor_shl8. apply is_bytes_nthN. exact Bp. }
@@ -133,7 +135,7 @@ Proof.
       apply (IH first a A); try assumption.
       * exists n. exact EQ.
       * intros j. exact (CUT (S j)).
-    + cbn [ser_items read_pkts]. cbn [wf_item] in WI1.
+    + cbn [ser_items app read_pkts]. cbn [wf_item] in WI1.
       rewrite (mk_pkt_pid pid first m af ch WI1). cbn [bind]. rewrite N.eqb_refl. cbn [negb].
       cbn [chunks concat] in EQ. rewrite app_assoc in EQ.
       assert (CUT1: len (A ++ ch) < len U -> ~ inner_end c (len (A ++ ch))).
@@ -143,9 +145,10 @@ Proof.
                   Ok (if len (A ++ ch) <? len U then ({| a_buf := A ++ ch; a_state := 1 |}, None)
                       else ({| a_buf := A ++ ch; a_state := 2 |}, Some E.AccumulatorDone))).
       { unfold write_packet. rewrite (mk_pkt_pusi pid first m af ch WI1). cbn [bind].
-        destruct ST as [(F & Ea & EA)|(F & Ea)]; subst; cbn [a_state new_acc N.eqb Pos.eqb].
-        - apply (acc_add_step [] ch _ n EQ CUT1). apply mk_pkt_payload. exact WI1.
-        - apply (acc_add_step A ch _ n EQ CUT1). apply mk_pkt_payload. exact WI1. }
+        destruct ST as [(F & Ea & EA)|(F & Ea)]; subst.
+        - replace (a_state a =? 2) with false by (symmetry; apply N.eqb_neq; exact Ea).
+          destruct (a_state a =? 0); apply (acc_add_step [] ch _ n EQ CUT1); apply mk_pkt_payload; exact WI1.
+        - cbn [a_state N.eqb Pos.eqb]. apply (acc_add_step A ch _ n EQ CUT1). apply mk_pkt_payload. exact WI1. }
       rewrite WP. cbn [bind].
       destruct (N.ltb_spec (len (A ++ ch)) (len U)) as [Lt|Ge]; cbn [snd fst].
       * apply (IH false _ (A ++ ch)); try assumption.
@@ -157,6 +160,55 @@ Proof.
         rewrite (app_eq_over _ _ _ _ EQ Ge). rewrite unit_stuffed.
         unfold new_pmt. rewrite (parse_tables_ok _ (wf_with _)). cbn [bind with_stuffing sec].
         unfold sec_result at 1. cbn [pids]. destruct (sstreams (sec c)) as [|e t]; [congruence|]. reflexivity.
+Qed.
+
+(* an INTERRUPTED transmission of this unit: packets carrying only a proper prefix of it leave the accumulator in a
+   state that is not "done" (whatever its buffer), without returning *)
+Lemma read_pkts_interrupted : forall rest first a A,
+  Forall (wf_item pid) rest ->
+  ((first = true /\ a_state a <> 2 /\ A = []) \/ (first = false /\ a = {| a_buf := A; a_state := 1 |})) ->
+  (exists R n, A ++ concat (chunks rest) ++ R = U ++ repeatN 255 n) ->
+  len (A ++ concat (chunks rest)) < len U ->
+  (forall j, let k := len A + len (concat (chunks (firstn j rest))) in k < len U -> ~ inner_end c k) ->
+  exists a', a_state a' <> 2 /\ read_pkts (ser_items pid first rest ++ tl) pid a = read_pkts tl pid a'.
+Proof.
+  induction rest as [|it rest IH]; intros first a A WI ST (R & n & EQ) LA CUT.
+  - exists a. split; [|reflexivity]. destruct ST as [(F & Ea & EA)|(F & Ea)]; [exact Ea|subst; cbn; discriminate].
+  - inversion WI as [|? ? WI1 WI']; subst. destruct it as [p|m af ch].
+    + destruct WI1 as (Lp & Bp & Np). cbn [ser_items app read_pkts].
+      assert (Hq: pkt_pid p = Ok (pid_of p)).
+      { unfold pkt_pid, pid_of. rewrite (idx_nthN p 1), (idx_nthN p 2) by lia. cbn [bind]. f_equal.
+        rewrite land31. apply lor_shl8. apply is_bytes_nthN. exact Bp. }
+      rewrite Hq. cbn [bind]. replace (pid_of p =? pid) with false by (symmetry; apply N.eqb_neq; exact Np). cbn [negb].
+      apply (IH first a A); try assumption.
+      * exists R, n. exact EQ.
+      * intros j. exact (CUT (S j)).
+    + cbn [ser_items app read_pkts]. cbn [wf_item] in WI1.
+      rewrite (mk_pkt_pid pid first m af ch WI1). cbn [bind]. rewrite N.eqb_refl. cbn [negb].
+      assert (EQ2: (A ++ ch) ++ (concat (chunks rest) ++ R) = U ++ repeatN 255 n).
+      { rewrite <- EQ. cbn [chunks concat]. rewrite <- !app_assoc. reflexivity. }
+      cbn [chunks concat] in LA.
+      assert (LT: len (A ++ ch) < len U) by (rewrite !len_app in *; lia).
+      assert (CUT1: len (A ++ ch) < len U -> ~ inner_end c (len (A ++ ch))).
+      { intros Lt. pose proof (CUT 1%nat) as K. cbn [firstn chunks concat] in K. rewrite app_nil_r in K. cbv zeta in K.
+        rewrite len_app. apply K. rewrite len_app in Lt. exact Lt. }
+      assert (WP: write_packet a (mk_pkt pid first m af ch) = Ok ({| a_buf := A ++ ch; a_state := 1 |}, None)).
+      { unfold write_packet. rewrite (mk_pkt_pusi pid first m af ch WI1). cbn [bind].
+        assert (STEP: forall A0 st, A0 = A -> acc_add {| a_buf := A0; a_state := st |} (mk_pkt pid first m af ch)
+                       = Ok ({| a_buf := A ++ ch; a_state := 1 |}, None)).
+        { intros A0 st ->. rewrite (acc_add_step A ch _ n EQ2 CUT1 _ st (mk_pkt_payload pid first m af ch WI1)).
+          replace (len (A ++ ch) <? len U) with true by lia. reflexivity. }
+        destruct ST as [(F & Ea & EA)|(F & Ea)]; subst.
+        - replace (a_state a =? 2) with false by (symmetry; apply N.eqb_neq; exact Ea).
+          destruct (a_state a =? 0); apply STEP; reflexivity.
+        - cbn [a_state N.eqb Pos.eqb]. apply STEP. reflexivity. }
+      rewrite WP. cbn [bind snd fst].
+      apply (IH false _ (A ++ ch)); try assumption.
+      * right. split; reflexivity.
+      * exists R, n. exact EQ2.
+      * rewrite <- app_assoc. exact LA.
+      * intros j. pose proof (CUT (S j)) as K. cbn [firstn chunks concat] in K. cbv zeta in *.
+        rewrite !len_app in *. rewrite N.add_assoc in K. exact K.
 Qed.
 End Reader.
 
@@ -174,19 +226,67 @@ Proof. induction l as [|it t IH]; intros first W; [constructor|]. inversion W; s
   - destruct H1 as [L _]; exact L.
   - apply mk_pkt_len. assumption. Qed.
 
+Lemma chop188_app : forall pkts fuel t, Forall (fun p => len p = 188) pkts -> (length pkts < fuel)%nat ->
+  chop188 fuel (concat pkts ++ t) = pkts ++ chop188 (fuel - length pkts) t.
+Proof. induction pkts as [|p r IH]; intros fuel t W Hf.
+  - cbn [concat app length]. rewrite Nat.sub_0_r. reflexivity.
+  - destruct fuel as [|fuel]; [cbn in Hf; lia|]. cbn [chop188 concat]. inversion W; subst. rewrite <- app_assoc, len_app.
+    replace (len p + len (concat r ++ t) <? 188) with false by lia.
+    rewrite takeN_app by (symmetry; assumption). rewrite dropN_app by (symmetry; assumption).
+    cbn [app length Nat.sub]. f_equal. apply IH; [assumption|cbn in Hf; lia]. Qed.
+
+(* the stream may continue with ANY bytes after the packets that carry the unit: the reader has returned by then *)
+Theorem read_pmt_then_anything c pid items tail :
+  wf_carrier c -> sstreams (sec c) <> [] ->
+  Forall (wf_item pid) items ->
+  (exists n, concat (chunks items) = ser_unit c ++ repeatN 255 n) ->
+  cuts_ok c items ->
+  read_pmt (packetise pid items ++ tail) pid = Ok (sec_result (sec c)).
+Proof. intros WC NE WI EQ CUT. unfold read_pmt, packetise.
+  pose proof (ser_items_len pid items true WI) as L188.
+  rewrite chop188_app; [|exact L188|].
+  - apply (read_pkts_ok c pid WC NE _ items true new_acc []); try assumption.
+    + left. repeat split. discriminate.
+    + rewrite len_nil. unfold ser_unit. rewrite !len_app, !len_cons. lia.
+  - assert (forall l : list bytes, Forall (fun p => len p = 188) l -> (length l <= length (concat l))%nat) as CNT.
+    { induction 1 as [|y l Hy _ IHl]; [cbn; lia|]. cbn [concat length]. rewrite app_length. unfold len in Hy. lia. }
+    pose proof (CNT _ L188) as K. rewrite app_length. apply Nat.lt_succ_r. apply Nat.le_trans with (1 := K). apply Nat.le_add_r.
+Qed.
+
+(* an interrupted transmission of one PMT (only a proper prefix of its payload arrives, then a new payload_unit_start)
+   followed by a complete transmission of another: the reader returns the complete one *)
+Theorem read_pmt_after_interrupted ca cb pid items_a items_b tail :
+  wf_carrier ca -> wf_carrier cb -> sstreams (sec cb) <> [] ->
+  Forall (wf_item pid) items_a -> Forall (wf_item pid) items_b ->
+  (exists R n, concat (chunks items_a) ++ R = ser_unit ca ++ repeatN 255 n) ->
+  len (concat (chunks items_a)) < len (ser_unit ca) -> cuts_ok ca items_a ->
+  (exists n, concat (chunks items_b) = ser_unit cb ++ repeatN 255 n) -> cuts_ok cb items_b ->
+  read_pmt (packetise pid items_a ++ packetise pid items_b ++ tail) pid = Ok (sec_result (sec cb)).
+Proof. intros WA WB NE WIa WIb EQa LAa CUTa EQb CUTb. unfold read_pmt, packetise.
+  pose proof (ser_items_len pid items_a true WIa) as La. pose proof (ser_items_len pid items_b true WIb) as Lb.
+  set (PA := ser_items pid true items_a) in *. set (PB := ser_items pid true items_b) in *.
+  assert (CNT: forall l : list bytes, Forall (fun p => len p = 188) l -> (length l <= length (concat l))%nat).
+  { induction 1 as [|y l Hy _ IHl]; [cbn; lia|]. cbn [concat length]. rewrite app_length. unfold len in Hy. lia. }
+  pose proof (CNT _ La) as Ka. pose proof (CNT _ Lb) as Kb.
+  rewrite chop188_app; [|exact La|rewrite !app_length; unfold bytes in *; lia].
+  rewrite chop188_app; [|exact Lb|rewrite !app_length; unfold bytes in *; lia].
+  set (T := chop188 _ tail).
+  destruct (read_pkts_interrupted ca pid WA (PB ++ T) items_a true new_acc [] WIa) as (a' & Sa & Ea).
+  - left. repeat split. discriminate.
+  - destruct EQa as (R & n & E). exists R, n. exact E.
+  - exact LAa.
+  - exact CUTa.
+  - unfold PA. etransitivity; [exact Ea|].
+    apply (read_pkts_ok cb pid WB NE T items_b true a' []); try assumption.
+    + left. repeat split. exact Sa.
+    + rewrite len_nil. unfold ser_unit. rewrite !len_app, !len_cons. lia.
+Qed.
+
 Theorem read_pmt_ok c pid items :
   wf_carrier c -> sstreams (sec c) <> [] ->
   Forall (wf_item pid) items ->
   (exists n, concat (chunks items) = ser_unit c ++ repeatN 255 n) ->
   cuts_ok c items ->
   read_pmt (packetise pid items) pid = Ok (sec_result (sec c)).
-Proof. intros WC NE WI EQ CUT. unfold read_pmt, packetise.
-  pose proof (ser_items_len pid items true WI) as L188.
-  rewrite chop188_concat; [|exact L188|].
-  - apply (read_pkts_ok c pid WC NE items true new_acc []); try assumption.
-    + left. repeat split.
-    + rewrite len_nil. unfold ser_unit. rewrite !len_app, !len_cons. lia.
-  - assert (forall l : list bytes, Forall (fun p => len p = 188) l -> (length l <= length (concat l))%nat) as CNT.
-    { induction 1 as [|y l Hy _ IHl]; [cbn; lia|]. cbn [concat length]. rewrite app_length. unfold len in Hy. lia. }
-    apply Nat.lt_succ_r. exact (CNT _ L188).
-Qed.
+Proof. intros WC NE WI EQ CUT. pose proof (read_pmt_then_anything c pid items [] WC NE WI EQ CUT) as K.
+  rewrite app_nil_r in K. exact K. Qed.
